@@ -450,6 +450,7 @@ type driver struct {
 	skip        map[int][]string
 	tags        map[string]*tagStat
 	pruned      int
+	prunedBy    map[string]int
 	bigStack    bool
 	deathsAt    map[string]int
 	cacheDeaths int
@@ -554,6 +555,7 @@ func (d *driver) record(ir inputResult) {
 		}
 		if r.V == vPruned {
 			d.pruned++
+			d.prunedBy[r.St+"|"+r.Tag]++
 			d.res.Caps = appendUniq(d.res.Caps, fmt.Sprintf("inputs for which the reference model predicts %q are not pushed through stage %s once %s has been confirmed (the model is checked against every executed input)", r.Tag, r.St, r.Key))
 			d.outcome(k + " " + r.Key)
 			continue
@@ -578,8 +580,13 @@ func (d *driver) record(ir inputResult) {
 			ts := d.tagStat(r.St + "|" + r.Tag)
 			ts.survived++
 			if len(ts.deaths) > 0 || deathsOf(claimsDir(), r.St+"|"+r.Tag) > 0 {
+				// the prediction is not reliable (any more): nothing is skipped on it from now on
 				vetoPrune(r.St + "|" + r.Tag)
-				d.res.Broken = fmt.Sprintf("reference model mispredicted: input #%d of part %s tagged %q survived stage %s although tagged inputs died there before", ir.idx, d.fam.name, r.Tag, r.St)
+				d.res.Caps = appendUniq(d.res.Caps, fmt.Sprintf("the reference-model prediction %q for stage %s came true on some inputs and not on others: no input is skipped on it", r.Tag, r.St))
+				if d.prunedBy[r.St+"|"+r.Tag] > 0 {
+					// harness inconsistency (not a property violation): inputs have already been skipped on a prediction that does not hold
+					d.res.Broken = fmt.Sprintf("harness bookkeeping: %d inputs of part %s were skipped at stage %s on the prediction %q, but input #%d with the same prediction survived that stage", d.prunedBy[r.St+"|"+r.Tag], d.fam.name, r.St, r.Tag, ir.idx)
+				}
 			}
 		}
 		if r.V == vPanic || r.V == vFatal || r.V == vHang || r.V == vWrong {
@@ -811,8 +818,9 @@ func (d *driver) run() {
 				ts := d.tagStat(st)
 				ts.deaths[key]++
 				if ts.survived > 0 {
+					// a death is always reported (above); the prediction is merely useless for skipping
 					vetoPrune(st)
-					d.res.Broken = fmt.Sprintf("reference model mispredicted: input #%d of part %s tagged %q died at stage %s although tagged inputs survived it before", idx, d.fam.name, info.tag, info.stage)
+					d.res.Caps = appendUniq(d.res.Caps, fmt.Sprintf("the reference-model prediction %q for stage %s came true on some inputs and not on others: no input is skipped on it", info.tag, info.stage))
 				} else {
 					writeDeath(deathRec{StageTag: st, Key: key, Part: d.fam.name, Idx: idx})
 				}
@@ -936,7 +944,7 @@ func partOf(fam family, tier string) runner.Part {
 		Name:   fam.name,
 		Shards: fam.shards[tier],
 		Run: func(c *runner.Ctx) *runner.Result {
-			d := &driver{fam: fam, ctx: c, res: &runner.Result{Outcomes: map[string]int{}}, hashes: map[string]struct{}{}, seenKeys: map[string]bool{}, keyVia: map[string]map[string]bool{}, deathsAt: map[string]int{}, guarded: map[string][]string{}, skip: map[int][]string{}, tags: map[string]*tagStat{}, deferred: map[int]map[string]bool{}, stageUs: map[string]int64{}}
+			d := &driver{fam: fam, ctx: c, res: &runner.Result{Outcomes: map[string]int{}}, hashes: map[string]struct{}{}, seenKeys: map[string]bool{}, keyVia: map[string]map[string]bool{}, deathsAt: map[string]int{}, prunedBy: map[string]int{}, guarded: map[string][]string{}, skip: map[int][]string{}, tags: map[string]*tagStat{}, deferred: map[int]map[string]bool{}, stageUs: map[string]int64{}}
 			d.run()
 			// reachability: which stages reached each crash site
 			for i := range d.res.Violations {
